@@ -501,10 +501,14 @@ class Facts:
         for defp, b in list(self.bodies.items()):
             if b.d['promoted']:
                 continue
-            if not any(t.get('callee') and strip_generics(t.get('resolved') or t['callee']) in new for _i, t in b.calls()):
+            if not any(t.get('callee') and strip_generics(t.get('resolved') or t['callee']).rsplit('::{closure#0}', 1)[0] in new for _i, t in b.calls()):
                 continue
             try:
                 nb = inline.inline_calls(self, b, should_inline=lambda cal, t, depth: cal.name in new, max_depth=4)
+                if b.kind == 'coroutine':
+                    # awaited new async helpers: their coroutine body replaces the poll in the await loop
+                    nb = inline.inline_awaits(self, nb, lambda k: k.name.rsplit('::{closure#0}', 1)[0] in new)
+                    nb = inline.inline_calls(self, nb, should_inline=lambda cal, t, depth: cal.name in new, max_depth=4)
             except Exception:
                 continue
             self.bodies[defp] = nb
